@@ -119,11 +119,14 @@ def headerAtHeightE (n : Node) (height : Nat) : Except Err Blk :=
 (also when the header head is on another fork than the body head, or ahead of it);
 `output_mmr_size` of an accepted header is the size of the MMR after its block; `end = None` is the
 height of the BODY head (`head_header()`), looked up in the HEADER MMR like the others -/
-def heightRangeToPmmr (n : Node) (startH : Nat) (endH : Option Nat) : Except Err (Nat × Nat) :=
+def heightRangeToPmmr (n : Node) (startH : Nat) (endH : Option Nat)
+    (claimed : Nat → Option Nat := fun _ => none) : Except Err (Nat × Nat) :=
   let endH := endH.getD (n.heightOf n.head)
+  -- `output_mmr_size` is read from the HEADER: what it claims (`claimed`, leaf count per block id,
+  -- when the driver knows it) - a header in the header MMR need not belong to a valid block
   let sizeAt (h : Nat) : Except Err Nat :=
     match headerAtHeightE n h with
-    | .ok b => .ok (mmr (leavesUpTo n b.id))
+    | .ok b => .ok (mmr ((claimed b.id).getD (leavesUpTo n b.id)))
     | .error e => .error e
   let start : Except Err Nat :=
     if startH = 0 then .ok 0 else
